@@ -296,7 +296,19 @@ impl Runner for R {
                         let r: Result<String, ()> = if *k == "i" {
                             u.read_int(&mut ws).map(|v| format!("i:{}", v)).map_err(|_| ())
                         } else if *k == "s" {
-                            u.read_string().map(|s| format!("b:{}", to_hex(s))).map_err(|_| ())
+                            let r = u.read_string();
+                            if let Ok(st) = r {
+                                // a string that was read is NUL-free, lies inside the input and is
+                                // followed by its terminator there
+                                let base = bs.as_ptr() as usize;
+                                let sp = st.as_ptr() as usize;
+                                let inside = sp >= base && sp + st.len() < base + bs.len() + 1;
+                                let term = inside && sp + st.len() < base + bs.len() && bs[sp - base + st.len()] == 0;
+                                if st.contains(&0) || !term {
+                                    o.fail("C08/read-string-termination", format!("bytes={} string={}", to_hex(&bs), to_hex(st)));
+                                }
+                            }
+                            r.map(|s| format!("b:{}", to_hex(s))).map_err(|_| ())
                         } else if *k == "d" {
                             u.read_data(&mut ws).map(|s| format!("b:{}", to_hex(s))).map_err(|_| ())
                         } else if *k == "t" {
@@ -309,6 +321,16 @@ impl Runner for R {
                         if u.as_slice().len() > before {
                             o.fail("C08/unpack-grows", format!("bytes={}", to_hex(&bs)));
                         }
+                        // reading never runs past what was written: the remaining input is a
+                        // suffix of the input (checked on addresses, not only on lengths)
+                        {
+                            let rest = u.as_slice();
+                            let base = bs.as_ptr() as usize;
+                            let rp = rest.as_ptr() as usize;
+                            if !(rp >= base && rp + rest.len() == base + bs.len()) {
+                                o.fail("C08/unpack-rest-not-a-suffix", format!("bytes={} kind={}", to_hex(&bs), k));
+                            }
+                        }
                         match r {
                             Ok(v) => vals.push(v),
                             Err(()) => {
@@ -320,6 +342,12 @@ impl Runner for R {
                     let rest = u.as_slice().to_vec();
                     let mut ex: Vec<libtw2_packer::ExcessData> = vec![];
                     u.finish(&mut ex);
+                    // `finish`: plain mode warns iff something is left; demo mode iff at least four
+                    // bytes or a non-zero byte are left
+                    let want = if demo { rest.len() >= 4 || rest.iter().any(|&b| b != 0) } else { !rest.is_empty() };
+                    if want == ex.is_empty() {
+                        o.fail("C08/finish-excess-rule", format!("mode={} rest={} warned={}", mode, to_hex(&rest), !ex.is_empty()));
+                    }
                     (ok, vals, rest, ws, !ex.is_empty())
                 });
                 match r {
@@ -525,7 +553,71 @@ impl Domain for D {
             }
             writeln!(w, "unpack {} {} {}", if demo { "demo" } else { "plain" }, to_hex(&enc), ks.join(" ")).unwrap();
         }
-        // string helpers
+        // systematic: every truncation of some encodings, and demo-mode padding with 0..7 zero
+        // bytes / one non-zero byte at each padding position
+        let n = if thorough { 2000 } else { 150 };
+        for _ in 0..n {
+            let k = 1 + rng.below(4) as usize;
+            let fields: Vec<String> = (0..k).map(|_| gen_field(&mut rng)).collect();
+            let fs: Vec<Field> = fields.iter().map(|f| parse_field(f).unwrap()).collect();
+            let total: usize = fs.iter().map(field_len).sum();
+            if total > 80 {
+                continue;
+            }
+            let mut big = vec![0u8; total + 8];
+            let enc = with_packer(&mut big[..], |mut p| {
+                for f in &fs {
+                    match f {
+                        Field::Int(v) => p.write_int(*v).unwrap(),
+                        Field::Str(s) => p.write_string(s).unwrap(),
+                        Field::Data(d) => p.write_data(d).unwrap(),
+                        Field::Raw(d) => p.write_raw(d).unwrap(),
+                    }
+                }
+                p.written().to_vec()
+            });
+            let kinds: Vec<String> = fs
+                .iter()
+                .map(|f| match f {
+                    Field::Int(_) => "i".to_string(),
+                    Field::Str(_) => "s".to_string(),
+                    Field::Data(_) => "d".to_string(),
+                    Field::Raw(d) => format!("r:{}", d.len()),
+                })
+                .collect();
+            for cut in 0..=enc.len() {
+                writeln!(w, "unpack plain {} {}", to_hex(&enc[..cut]), kinds.join(" ")).unwrap();
+            }
+            for pad in 0..8usize {
+                let mut e = enc.clone();
+                e.extend(vec![0u8; pad]);
+                if e.len() % 4 == 0 {
+                    writeln!(w, "unpack demo {} {}", to_hex(&e), kinds.join(" ")).unwrap();
+                    if pad > 0 {
+                        let i = enc.len() + rng.below(pad as u64) as usize;
+                        e[i] = 1 + rng.below(255) as u8;
+                        writeln!(w, "unpack demo {} {}", to_hex(&e), kinds.join(" ")).unwrap();
+                    }
+                }
+            }
+        }
+        // string helpers: boundary shapes first
+        for &k in &[1usize, 3, 4, 6] {
+            for len in [0usize, 1, k * 4 - 2, k * 4 - 1, k * 4, k * 4 + 1] {
+                for fill in [0x01u8, 0x7f, 0x80, 0xff] {
+                    writeln!(w, "s2i {} {}", k, to_hex(&vec![fill; len])).unwrap();
+                }
+            }
+        }
+        for len in 0..6usize {
+            writeln!(w, "b2s {}", to_hex(&vec![0u8; len])).unwrap();
+            writeln!(w, "b2s {}", to_hex(&vec![0x41u8; len])).unwrap();
+            let mut v = vec![0x41u8; len];
+            v.push(0);
+            writeln!(w, "b2s {}", to_hex(&v)).unwrap();
+            v.push(0x42);
+            writeln!(w, "b2s {}", to_hex(&v)).unwrap();
+        }
         let n = if thorough { 5000 } else { 500 };
         for _ in 0..n {
             let k = *rng.pick(&[1usize, 3, 4, 6]);
